@@ -513,3 +513,10 @@ MUTANTS += [
     }''')],
      'expect': {'C07': 'ENSURE'}},
 ]
+
+MUTANTS += [
+    {'name': 'c08_array_limit_on_entry_snapshot', 'edits': [(P, '''                if (state->array_depth >= UINT8_MAX) {
+                    parser->error_flags = BINSON_ERROR_MAX_DEPTH_ARRAY;''', '''                if (orig_array_depth >= UINT8_MAX) {
+                    parser->error_flags = BINSON_ERROR_MAX_DEPTH_ARRAY;''')],
+     'expect': {'C08': 'ORIG-ERR', 'C02': 'C02(c)'}},
+]
